@@ -5,6 +5,7 @@ package meta
 import (
 	"errors"
 	"fmt"
+	"math"
 	"regexp"
 	"sort"
 	"strconv"
@@ -1247,7 +1248,13 @@ func (r *RangeEntry) String() string {
 var errNotExpectedValue = errors.New("not expected value")
 
 func (r *RangeEntry) CheckValue(v val.Value) error {
-	if !r.Exact.Empty() {
+	if !r.Exact.Empty() && (r.Exact.isMin || r.Exact.isMax) {
+		// min or max on its own: the bound of the built-in type, whatever the types in
+		// between allow is checked with their own statements
+		if !isTypeBound(v, r.Exact.isMax) {
+			return errNotExpectedValue
+		}
+	} else if !r.Exact.Empty() {
 		if cmp, err := r.Exact.Compare(v); err != nil {
 			return err
 		} else if cmp != 0 {
@@ -1271,6 +1278,42 @@ func (r *RangeEntry) CheckValue(v val.Value) error {
 		}
 	}
 	return nil
+}
+
+var intBounds = map[val.Format][2]int64{
+	val.FmtInt8:   {math.MinInt8, math.MaxInt8},
+	val.FmtInt16:  {math.MinInt16, math.MaxInt16},
+	val.FmtInt32:  {math.MinInt32, math.MaxInt32},
+	val.FmtInt64:  {math.MinInt64, math.MaxInt64},
+	val.FmtUInt8:  {0, math.MaxUint8},
+	val.FmtUInt16: {0, math.MaxUint16},
+	val.FmtUInt32: {0, math.MaxUint32},
+}
+
+// isTypeBound tells if v, or every item of v, is the lowest or highest value of its type
+func isTypeBound(v val.Value, highest bool) bool {
+	if v.Format().IsList() {
+		all := true
+		val.ForEach(v, func(index int, item val.Value) {
+			all = all && isTypeBound(item, highest)
+		})
+		return all
+	}
+	if v.Format() == val.FmtUInt64 {
+		if highest {
+			return v.Value().(uint64) == math.MaxUint64
+		}
+		return v.Value().(uint64) == 0
+	}
+	bounds, known := intBounds[v.Format()]
+	i, isInt := v.(val.Int64able)
+	if !known || !isInt {
+		return false
+	}
+	if highest {
+		return i.Int64() == bounds[1]
+	}
+	return i.Int64() == bounds[0]
 }
 
 type RangeNumber struct {
